@@ -200,6 +200,7 @@ func (ex *Exec) storeStructValue(ref *T, t types.Type, h *T) {
 	for i := 0; i < st.NumFields(); i++ {
 		f := st.Field(i)
 		k := ex.heapKey(t, f)
+		ex.checkWrite(k, ref)
 		ex.st.env[k] = Store(ex.get(ex.st, k), ref, ex.vfield(h, t, f))
 	}
 }
